@@ -323,6 +323,17 @@ pub fn install_crash_capture(id: &str) {
     }
 }
 
+/// The crash-capture slot of the calling thread (usize::MAX if none).
+pub fn current_slot() -> usize {
+    MY_SLOT.with(|s| s.get())
+}
+
+/// Threads spawned inside a case call this with their parent's slot, so that a fatal signal on them is
+/// attributed to the case that spawned them.
+pub fn adopt_slot(slot: usize) {
+    MY_SLOT.with(|s| s.set(slot));
+}
+
 /// Remembers the case a worker is about to run (as a ready-made replay file).
 pub fn note_current_case<C: Serialize>(slot: usize, prop: &str, case: &C) {
     if slot >= SLOTS || CRASH_PATHS.get().is_none() {
